@@ -157,7 +157,11 @@ class State:
         self.with_data = with_data
         self.pool = []      # MT
         self.exact = []     # bool: integer-exact so far
+        self.opq = []       # bool: tensor carries legs produced by block() ('s' history): only unary ops / self-contraction
         self.steps = []
+        self.yp = None      # yastn tensors, when drawing in live mode
+        self.config = None
+        self.dead = False   # live drawing hit an exception in yastn: stop extending the program
 
     def resolve_mode(self, mode):
         if self.cfg.get('force'):
@@ -191,9 +195,9 @@ def op(name, binary=False, weight=1.0, groups=()):
     return deco
 
 
-def pick(state, d, pred=None, label='x'):
+def pick(state, d, pred=None, label='x', opq_ok=False):
     st = _st()
-    idx = [i for i, m in enumerate(state.pool) if pred is None or pred(m)]
+    idx = [i for i, m in enumerate(state.pool) if (pred is None or pred(m)) and (opq_ok or not state.opq[i])]
     if not idx:
         raise Skip()
     # prefer recent tensors
@@ -222,8 +226,10 @@ class Unary:
     """Base for ops with a single tensor operand 'x'."""
     pred = staticmethod(lambda m: True)
 
+    opq_ok = True
+
     def draw(self, state, d, tier):
-        x = pick(state, d, self.pred)
+        x = pick(state, d, self.pred, opq_ok=self.opq_ok)
         step = {'op': self.name, 'x': x}
         self.args(state, d, tier, state.pool[x], step)
         return step
@@ -466,6 +472,7 @@ def draw_groups(d, ndim, min_groups=1):
 
 @op('fuse', weight=2.5, groups=('fusion', 'structure'))
 class Fuse(Unary):
+    opq_ok = False
     pred = staticmethod(lambda m: m.ndim >= 2 and not m.isdiag and max(depth(n) for n in m.tree) < 3)
 
     def args(self, state, d, tier, m, step):
@@ -483,6 +490,7 @@ class Fuse(Unary):
 
 @op('unfuse', weight=2.0, groups=('fusion', 'structure'))
 class Unfuse(Unary):
+    opq_ok = False
     pred = staticmethod(lambda m: m.ndim >= 1 and not m.isdiag)
 
     def args(self, state, d, tier, m, step):
@@ -503,6 +511,7 @@ class Unfuse(Unary):
 
 @op('meta_to_hard', weight=0.5, groups=('fusion',))
 class MetaToHard(Unary):
+    opq_ok = False
     pred = staticmethod(lambda m: m.any_meta())
 
     def model(self, state, step):
@@ -547,6 +556,7 @@ class AddLeg(Unary):
 
 @op('remove_leg', groups=('structure',))
 class RemoveLeg(Unary):
+    opq_ok = False
     pred = staticmethod(lambda m: any(m.can_remove_leg(i) for i in range(m.ndim)))
 
     def args(self, state, d, tier, m, step):
@@ -573,6 +583,7 @@ def _flippable(m, i, hard_ok):
 
 @op('flip_charges', groups=('structure',))
 class FlipCharges(Unary):
+    opq_ok = False
     pred = staticmethod(lambda m: not m.isdiag and m.ndim >= 1 and any(_flippable(m, i, False) for i in range(m.ndim)))
 
     def args(self, state, d, tier, m, step):
@@ -599,6 +610,7 @@ class FlipCharges(Unary):
 
 @op('switch_signature', groups=('structure',))
 class SwitchSignature(Unary):
+    opq_ok = False
     pred = staticmethod(lambda m: not m.isdiag and m.ndim >= 1 and any(_flippable(m, i, True) for i in range(m.ndim)))
 
     def args(self, state, d, tier, m, step):
@@ -632,6 +644,7 @@ def _can_diag(m):
 
 @op('diag', groups=('diag',))
 class Diag(Unary):
+    opq_ok = False
     pred = staticmethod(_can_diag)
 
     def model(self, state, step):
@@ -652,6 +665,7 @@ def _trace_pairs(m):
 
 @op('trace', weight=1.5, groups=('contraction',))
 class Trace(Unary):
+    opq_ok = False
     pred = staticmethod(lambda m: (m.isdiag or len(_trace_pairs(m)) > 0))
 
     def args(self, state, d, tier, m, step):
@@ -737,7 +751,7 @@ class Add:
         st = _st()
         x = pick(state, d, label='x')
         m = state.pool[x]
-        ys = [j for j, b in enumerate(state.pool) if j != x and _same_space(m, b, 1) and b.n == m.n]
+        ys = [j for j, b in enumerate(state.pool) if j != x and not state.opq[j] and _same_space(m, b, 1) and b.n == m.n]
         if not ys:
             raise Skip()
         y = d.draw(st.sampled_from(ys[-3:]))
@@ -793,7 +807,7 @@ class Tensordot:
         conj = [chance(d, 1, 4), chance(d, 1, 4)]
         cands = []
         for y, b in enumerate(state.pool):
-            if a.isdiag and b.isdiag:
+            if (a.isdiag and b.isdiag) or state.opq[y]:
                 continue
             pr = _dot_candidates(a, b, conj[0], conj[1])
             if pr or (not a.isdiag and not b.isdiag):
@@ -864,7 +878,7 @@ class Vdot:
         ys = []
         for y, b in enumerate(state.pool):
             Bm = b.conj() if conj[1] else b
-            if _same_space(A, Bm, -1):
+            if not state.opq[y] and _same_space(A, Bm, -1):
                 ys.append(y)
         if not ys:
             raise Skip()
@@ -904,7 +918,7 @@ class Broadcast:
         cands = []
         for y, b in enumerate(state.pool):
             for j in range(b.ndim):
-                if b.is_leaf(j) and a.legs[0].compatible(b.legs[leaves(b.tree[j])[0]]):
+                if not state.opq[y] and b.is_leaf(j) and a.legs[0].compatible(b.legs[leaves(b.tree[j])[0]]):
                     cands.append((y, j))
         if not cands:
             raise Skip()
@@ -950,7 +964,8 @@ class ApplyMask:
 
     def draw(self, state, d, tier):
         st = _st()
-        cands = [(y, j) for y, b in enumerate(state.pool) for j in range(b.ndim) if b.is_leaf(j) and (not b.isdiag or j == 0)]
+        cands = [(y, j) for y, b in enumerate(state.pool) for j in range(b.ndim)
+                 if not state.opq[y] and b.is_leaf(j) and (not b.isdiag or j == 0)]
         if not cands:
             raise Skip()
         y, j = d.draw(st.sampled_from(cands[-6:]))
@@ -1222,14 +1237,52 @@ def resolve(step, pool_len):
     return out
 
 
+def _opq_of(state, step, nout=1):
+    idx = [step[k] for k in ('x', 'y') if k in step] + list(step.get('ys', [])) + list(step.get('members', []))
+    o = any(state.opq[i] for i in idx)
+    if step['op'] == 'block':
+        o = True
+    if step['op'] == 'drop_leg_history' and step.get('axes') is None:
+        o = False
+    return o
+
+
 def draw_apply(state, step):
-    """Apply a drawn step to the structural state (draw time)."""
+    """Apply a drawn step to the state (draw time). In live mode (state.yp is a list) the step is also executed on
+    yastn tensors, which is needed to learn the structure of results that are re-based (factorisations, block)."""
+    if state.dead:
+        raise Skip()
     step = resolve(step, len(state.pool))
-    r = OPS[step['op']].model(state, step)
+    o = OPS[step['op']]
+    r = o.model(state, step)
     state.steps.append(step)
+    opq = _opq_of(state, step)
+    if state.yp is not None:
+        try:
+            y = o.yastn(state.yp, step, state.config)
+        except Exception:
+            state.dead = True      # execution will report it; nothing can follow
+            return step
+        if isinstance(r, tuple) and r[0] == 'rebase':
+            outs = list(y) if isinstance(y, (tuple, list)) else [y]
+            try:
+                ms = [rebase(yi, state) for yi in outs]
+            except Exception:
+                state.dead = True
+                return step
+            for yi, mi in zip(outs, ms):
+                state.pool.append(mi)
+                state.opq.append(opq)
+                state.yp.append(yi)
+            return step
+        if not (isinstance(r, tuple) and r[0] == 'num'):
+            state.yp.append(y)
+    elif isinstance(r, tuple) and r[0] == 'rebase':
+        raise RuntimeError('re-based operations need live drawing')
     if isinstance(r, tuple) and r[0] == 'num':
         return step
     state.pool.append(r)
+    state.opq.append(opq)
     return step
 
 
@@ -1242,7 +1295,7 @@ KLASSES = ['equal', 'equal', 'equal', 'subset', 'subset', 'superset', 'superset'
 
 
 def draw_program(d, tier, cfg=None, min_steps=2, max_steps=6, weights=None, klasses=KLASSES, partner_prob=0.6,
-                 syms=C.SYMS, first=None, max_pool=None):
+                 syms=C.SYMS, first=None, max_pool=None, live=False):
     """Draw a program interactively. Returns the program descriptor (cfg + resolved steps)."""
     st = _st()
     if cfg is None:
@@ -1250,7 +1303,10 @@ def draw_program(d, tier, cfg=None, min_steps=2, max_steps=6, weights=None, klas
     _CUR_POOL.clear()
     if not chance(d, 1, 6):     # mostly a narrow charge pool (many allowed blocks); sometimes the whole box
         draw_charge_pool(d, cfg['sym'], tier)
-    state = State(cfg, with_data=False)
+    state = State(cfg, with_data=live)
+    if live:
+        state.yp = []
+        state.config = C.make_config(cfg)
     w = dict(DEFAULT_WEIGHTS)
     if weights:
         w.update(weights)
@@ -1260,7 +1316,7 @@ def draw_program(d, tier, cfg=None, min_steps=2, max_steps=6, weights=None, klas
     draw_apply(state, first or OPS['new'].draw(state, d, tier))
     nsteps = d.draw(st.integers(min_steps, max_steps), label='nsteps')
     attempts = 0
-    while len(state.steps) < nsteps + 1 and attempts < 4 * nsteps + 8:
+    while len(state.steps) < nsteps + 1 and attempts < 4 * nsteps + 8 and not state.dead:
         attempts += 1
         name = d.draw(st.sampled_from(choices), label='op')
         try:
@@ -1382,6 +1438,28 @@ def cmp_arrays(got, exp, exact, what=''):
     return None
 
 
+def _collapse_s(h):
+    """Replace every 's(...)' group (legs produced by block()) by 'o': the model treats them as elementary."""
+    out, i = [], 0
+    while i < len(h):
+        if h[i] == 's':
+            depth_, j = 0, i + 1
+            while True:
+                if h[j] == '(':
+                    depth_ += 1
+                elif h[j] == ')':
+                    depth_ -= 1
+                    if depth_ == 0:
+                        break
+                j += 1
+            out.append('o')
+            i = j + 1
+        else:
+            out.append(h[i])
+            i += 1
+    return ''.join(out)
+
+
 def check_result(y, m, config, exact, observers=True, soft=None):
     """Compare yastn tensor y with model tensor m. Returns (clause, message) or None."""
     from .model import observe, ObserveError
@@ -1397,7 +1475,7 @@ def check_result(y, m, config, exact, observers=True, soft=None):
     if tuple(y.s) != es:
         return ('signature', f's = {y.s}, expected {es}')
     if not m.isdiag:
-        hy = tuple(l.history() for l in y.get_legs())
+        hy = tuple(_collapse_s(l.history()) for l in y.get_legs())
         hm = tuple(history(n) for n in m.tree)
         if hy != hm:
             return ('fusion_history', f'leg histories {hy}, expected {hm}')
@@ -1462,6 +1540,26 @@ def execute_program(prog, on_step=None, observers=True, config=None):
         except Exception as e:   # assert / IndexError / KeyError ... from yastn on model-valid arguments
             raise StepFail('unexpected_' + type(e).__name__, str(e)[:300], k, step)
         info['steps'] += 1
+        if isinstance(m, tuple) and m[0] == 'rebase':
+            outs = list(y) if isinstance(y, (tuple, list)) else [y]
+            if len(outs) != len(m[1]):
+                raise StepFail('outputs', f'{len(outs)} outputs, expected {len(m[1])}', k, step)
+            for yi, ni in zip(outs, m[1]):
+                if not isinstance(yi, yastn.Tensor):
+                    raise StepFail('type', f'output is {type(yi).__name__}', k, step)
+                if ni is not None and tuple(yi.n) != tuple(ni):
+                    raise StepFail('charge', f'n = {yi.n}, algebra dictates {tuple(ni)}', k, step)
+                try:
+                    mi = rebase(yi, state)
+                except (YastnError, AssertionError, IndexError, KeyError, ValueError) as e:
+                    raise StepFail('rebase_failed', f'{type(e).__name__}: {e}', k, step)
+                state.pool.append(mi)
+                state.exact.append(False)
+                state.opq.append(_opq_of(state, step))
+                yp.append(yi)
+                if on_step:
+                    on_step(k, step, yi, mi, yp, state)
+            continue
         if isinstance(m, tuple) and m[0] == 'num':
             info['nums'] += 1
             got = complex(y)
@@ -1495,6 +1593,7 @@ def execute_program(prog, on_step=None, observers=True, config=None):
             raise StepFail(r[0], r[1], k, step)
         state.pool.append(m)
         state.exact.append(exact)
+        state.opq.append(_opq_of(state, step))
         yp.append(y)
         if on_step:
             on_step(k, step, y, m, yp, state)
@@ -1525,3 +1624,277 @@ def program_labels(prog, state):
             if td['dtype'].startswith('complex'):
                 labs.add('complex')
     return labs
+
+
+# ------------------------------------------------------------------------------------------------
+# re-basing the model on a yastn result whose layout is implementation-defined (factorisations, block, ...)
+# ------------------------------------------------------------------------------------------------
+
+def parse_history(h, counter):
+    """History string ('o', 'p(oo)', 'm(p(oo)o)', 's(..)') -> model node; 's' nodes are opaque leaves."""
+    pos = [0]
+    opaque = {}
+
+    def node():
+        c = h[pos[0]]
+        if c == 'o':
+            pos[0] += 1
+            i = counter[0]
+            counter[0] += 1
+            return i
+        start = pos[0]
+        pos[0] += 2  # letter and '('
+        children = []
+        while h[pos[0]] != ')':
+            children.append(node())
+        pos[0] += 1
+        if c == 's':
+            # opaque: collapse to a single leaf
+            first = leaves_of(children)[0]
+            counter[0] = first + 1
+            opaque[first] = h[start:pos[0]]
+            return first
+        return ('h' if c == 'p' else 'm', children)
+
+    def leaves_of(ch):
+        out = []
+        for x in ch:
+            out.extend(leaves(x))
+        return out
+    n = node()
+    return n, opaque
+
+
+def unfuse_all(y):
+    """Remove every 'p' and 'm' fusion layer; legs produced by block() ('s') stay."""
+    for _ in range(16):
+        if y.isdiag or y.ndim == 0:
+            return y
+        axes = tuple(i for i, l in enumerate(y.get_legs()) if l.history()[0] in 'pm')
+        if not axes:
+            return y
+        y = y.unfuse_legs(axes=axes)
+    return y
+
+
+def rebase(y, state):
+    """Model tensor derived from the yastn tensor itself (used where the result is not unique or its layout is
+    implementation-defined). Later steps are again checked independently against this model."""
+    counter = [0]
+    tree, opaque = [], {}
+    if y.isdiag:
+        l = y.get_legs(0)
+        legs = [ELeg(l.s, dict(zip(l.t, l.D))), ELeg(-l.s, dict(zip(l.t, l.D)))]
+        m = MT(state.sym, state.ferm, legs, [0, 1], tuple(y.n), y.to_numpy(), True, y.is_complex())
+        return m
+    for l in y.get_legs():
+        nd, op_ = parse_history(l.history(), counter)
+        tree.append(nd)
+        opaque.update(op_)
+    z = unfuse_all(y)
+    zl = z.get_legs(native=True)
+    legs = [ELeg(l.s, dict(zip(l.t, l.D))) for l in zl]
+    E = z.to_numpy(native=True) if len(zl) else z.to_numpy().reshape(())
+    m = MT(state.sym, state.ferm, legs, tree, tuple(y.n), E, False, y.is_complex())
+    m.opaque = opaque
+    m.check()
+    return m
+
+
+def _bipartitions(m, d):
+    st = _st()
+    perm = list(d.draw(st.permutations(list(range(m.ndim)))))
+    k = d.draw(st.integers(1, m.ndim - 1)) if m.ndim >= 2 else 1
+    return perm[:k], perm[k:]
+
+
+@op('linalg', weight=0.0, groups=('linalg',))
+class Linalg:
+    """svd / svd_with_truncation / qr / eigh / eig: outputs are re-based; C02 checks well-formedness and charges,
+    C04/C13 check the numerical clauses with their own generators."""
+    multi = True
+
+    def draw(self, state, d, tier):
+        st = _st()
+        x = pick(state, d, lambda m: m.ndim >= 2 and not m.isdiag and not getattr(m, 'opaque', None))
+        m = state.pool[x]
+        f = d.draw(st.sampled_from(['svd', 'qr', 'svd_trunc', 'svd', 'eigh', 'qr']))
+        l, r = _bipartitions(m, d)
+        step = {'op': 'linalg', 'x': x, 'f': f, 'axes': [l, r], 'sU': d.draw(st.sampled_from([1, -1]))}
+        if f in ('svd', 'svd_trunc'):
+            step['nU'] = d.draw(st.booleans())
+            step['Uaxis'] = d.draw(st.integers(-(len(l) + 1), len(l)))
+            step['Vaxis'] = d.draw(st.integers(-(len(r) + 1), len(r)))
+            if f == 'svd_trunc':
+                step['D_total'] = d.draw(st.sampled_from([1, 2, 3, 5]))
+        elif f == 'qr':
+            step['Uaxis'] = d.draw(st.integers(-(len(l) + 1), len(l)))
+            step['Vaxis'] = d.draw(st.integers(-(len(r) + 1), len(r)))
+        else:  # eigh of the gram tensor x . x^dagger over the right group
+            step['Uaxis'] = d.draw(st.integers(-(len(l) + 1), len(l)))
+        return step
+
+    def expected_n(self, state, step):
+        a = state.pool[step['x']]
+        zero = tuple(0 for _ in a.n)
+        f = step['f']
+        if f in ('svd', 'svd_trunc'):
+            return [a.n if step['nU'] else zero, zero, zero if step['nU'] else a.n]
+        if f == 'qr':
+            return [a.n, zero]
+        return [zero, zero]
+
+    def model(self, state, step):
+        return ('rebase', self.expected_n(state, step))
+
+    def yastn(self, yp, step, config):
+        x = yp[step['x']]
+        l, r = step['axes']
+        axes = (tuple(l), tuple(r))
+        f = step['f']
+        if f == 'svd':
+            return x.svd(axes=axes, sU=step['sU'], nU=step['nU'], Uaxis=step['Uaxis'], Vaxis=step['Vaxis'])
+        if f == 'svd_trunc':
+            return x.svd_with_truncation(axes=axes, sU=step['sU'], nU=step['nU'], Uaxis=step['Uaxis'], Vaxis=step['Vaxis'],
+                                         D_total=step['D_total'])
+        if f == 'qr':
+            return x.qr(axes=axes, sQ=step['sU'], Qaxis=step['Uaxis'], Raxis=step['Vaxis'])
+        g = yastn.tensordot(x, x, axes=(tuple(r), tuple(r)), conj=(0, 1))
+        k = len(l)
+        return g.eigh(axes=(tuple(range(k)), tuple(range(k, 2 * k))), sU=step['sU'], Uaxis=step['Uaxis'])
+
+
+@op('ctor', weight=0.0, groups=('create',))
+class Ctor:
+    """Constructors with legs= taken from an existing tensor (possibly fused / meta legs) or with s, t, D."""
+    multi = True
+
+    def draw(self, state, d, tier):
+        st = _st()
+        x = pick(state, d, lambda m: not getattr(m, 'opaque', None))
+        m = state.pool[x]
+        f = d.draw(st.sampled_from(['rand', 'zeros', 'ones', 'rand_like', 'eye', 'randR', 'randC']))
+        step = {'op': 'ctor', 'x': x, 'f': f, 'seed': d.draw(st.integers(0, 2 ** 16))}
+        if f == 'eye':
+            cand = [i for i in range(m.ndim) if not has_mode(m.tree[i], 'm')]
+            if not cand or m.isdiag:
+                raise Skip()
+            step['axis'] = d.draw(st.sampled_from(cand))
+            step['isdiag'] = m.is_leaf(step['axis']) and d.draw(st.booleans())
+        elif f != 'rand_like':
+            if m.isdiag:
+                raise Skip()
+            k = d.draw(st.integers(0, min(m.ndim, 4)))
+            step['axes'] = list(d.draw(st.permutations(list(range(m.ndim))))[:k])
+            step['conj'] = [int(chance(d, 1, 3)) for _ in range(k)]
+            step['n'] = 'auto' if not chance(d, 1, 4) else list(d.draw(st.sampled_from(charge_box(state.sym, 1))))
+            step['dtype'] = d.draw(st.sampled_from([None, 'float64', 'complex128']))
+        return step
+
+    def model(self, state, step):
+        zero = tuple(0 for _ in C.MODULI[state.sym])
+        if step['f'] == 'eye':
+            return ('rebase', [zero])
+        if step['f'] == 'rand_like':
+            return ('rebase', [state.pool[step['x']].n])
+        return ('rebase', [None])   # charge checked against the request inside yastn()
+
+    def yastn(self, yp, step, config):
+        x = yp[step['x']]
+        C.reseed_backend(step['seed'])
+        f = step['f']
+        if f == 'rand_like':
+            return (yastn.rand_like(x),)
+        if f == 'eye':
+            leg = x.get_legs(step['axis'])
+            if step['isdiag']:
+                return (yastn.eye(config, legs=leg),)
+            return (yastn.eye(config, legs=[leg, leg.conj()], isdiag=False),)
+        legs = [x.get_legs(i) for i in step['axes']]
+        legs = [l.conj() if c else l for l, c in zip(legs, step['conj'])]
+        sym = config.sym.SYM_ID
+        if step['n'] == 'auto':
+            picks, sigs = [], []
+            for l in legs:
+                for nl in (l.legs if hasattr(l, 'legs') else (l,)):
+                    if nl.t:
+                        picks.append(nl.t[0])
+                        sigs.append(nl.s)
+            n = gsum(sym, picks, sigs) if picks else tuple(0 for _ in C.MODULI[sym])
+            # for hard-fused legs the fused charge already includes the leg's own signature
+        else:
+            n = tuple(step['n'])
+        kw = {} if step['dtype'] is None else {'dtype': step['dtype']}
+        r = getattr(yastn, f)(config, legs=legs, n=n, **kw)
+        if tuple(r.n) != tuple(n):
+            raise YastnError(f'constructor returned charge {r.n}, requested {n}')
+        return (r,)
+
+
+@op('drop_leg_history', weight=0.0, groups=('structure',))
+class DropLegHistory:
+    multi = True
+
+    def draw(self, state, d, tier):
+        st = _st()
+        x = pick(state, d, lambda m: m.any_hard() and not m.isdiag)
+        m = state.pool[x]
+        cand = [i for i in range(m.ndim) if has_mode(m.tree[i], 'h')]
+        step = {'op': 'drop_leg_history', 'x': x, 'axes': None if chance(d, 1, 3) else [d.draw(st.sampled_from(cand))]}
+        return step
+
+    def model(self, state, step):
+        return ('rebase', [state.pool[step['x']].n])
+
+    def yastn(self, yp, step, config):
+        axes = step['axes']
+        return (yp[step['x']].drop_leg_history(axes=None if axes is None else axes[0]),)
+
+
+@op('block', weight=0.0, groups=('block',))
+class Block:
+    """yastn.block of 2-3 tensors sharing signature and charge, placed along one or two blocked axes."""
+    multi = True
+
+    def draw(self, state, d, tier):
+        st = _st()
+        x = pick(state, d, lambda m: not m.isdiag and 1 <= m.ndim <= 4)
+        a = state.pool[x]
+        ys = [j for j, b in enumerate(state.pool) if not b.isdiag and b.ndim == a.ndim and b.n == a.n and
+              all(shape_of(to_hard_node(a.tree[i])) == shape_of(to_hard_node(b.tree[i])) and
+                  all(a.legs[p].s == b.legs[q].s for p, q in zip(leaves(a.tree[i]), leaves(b.tree[i])))
+                  for i in range(a.ndim))]
+        if not ys:
+            raise Skip()
+        k = d.draw(st.integers(1, min(3, len(ys))))
+        members = [x] + list(d.draw(st.permutations(ys))[:k])
+        nb = d.draw(st.integers(1, min(2, a.ndim)))
+        baxes = sorted(d.draw(st.permutations(list(range(a.ndim))))[:nb])
+        common = [i for i in range(a.ndim) if i not in baxes]
+        # common (non-blocked) legs must be compatible among all members
+        for i in common:
+            for j in members[1:]:
+                if not a.compatible_legs(i, state.pool[j], i, 1):
+                    raise Skip()
+        # positions: distinct coordinates on the blocked axes
+        coords = list(itertools.product(range(len(members)), repeat=nb))
+        pos = d.draw(st.permutations(coords))[:len(members)]
+        # members placed at the same coordinate along one blocked axis must be compatible on that axis
+        for ai, ax in enumerate(baxes):
+            for p, q in itertools.combinations(range(len(members)), 2):
+                if pos[p][ai] == pos[q][ai] and not state.pool[members[p]].compatible_legs(ax, state.pool[members[q]], ax, 1):
+                    raise Skip()
+        return {'op': 'block', 'x': x, 'members': members, 'pos': [list(p) for p in pos], 'common': common}
+
+    def model(self, state, step):
+        return ('rebase', [state.pool[step['x']].n])
+
+    def yastn(self, yp, step, config):
+        tens = {tuple(p) if len(p) > 1 else p[0]: yp[j] for p, j in zip(step['pos'], step['members'])}
+        common = step['common']
+        return (yastn.block(tens, common_legs=tuple(common) if common else None),)
+
+
+def to_hard_node(n):
+    from .model import to_hard
+    return to_hard(n)
